@@ -34,7 +34,16 @@ def source_shapes(src_text):
         tree = ast.parse(src_text)
     except SyntaxError:
         return shapes
-    for scope in [tree] + [n for n in ast.walk(tree) if isinstance(n, ast.FunctionDef)]:
+    fdefs = [n for n in ast.walk(tree) if isinstance(n, ast.FunctionDef)]
+    plain, _q = tables.enum_tables()
+    logic_names = set().union(*[set(m) for m in plain.values()]) if plain else set()
+    for f in fdefs:
+        if f.name in logic_names:
+            shapes.add("D28-function-named-like-logic-type")
+        rets = [x for x in ast.walk(f) if isinstance(x, ast.Return) and x.value is not None]
+        if rets and not (f.body and isinstance(f.body[-1], ast.Return) and f.body[-1].value is not None):
+            shapes.add("D25-value-returned-on-some-paths-only")
+    for scope in [tree] + fdefs:
         body_nodes = []
         stack = list(scope.body)
         while stack:
@@ -83,6 +92,11 @@ def source_shapes(src_text):
 
 
 # ---------------------------------------------------------------- attribution
+
+def shape_suffix(srcs):
+    shapes = sorted(set().union(*[source_shapes(t) for t in srcs.values()]))
+    return "".join(":" + s for s in shapes)
+
 
 def attribute(res, env_seed, pool, max_steps, K):
     """run the diagnostic monitors on the compiled code; returns a root-cause signature or None"""
